@@ -94,7 +94,7 @@ def run(ctx):
                 "a satoshi amount is computed by truncating a float product: %s" % (tm.show(bad[0])[:160] if bad else ""),
                 example="an amount such as 0.29 BTC (0.29 * 1e8 = 28999999.999999996)")
         # ---- selection loop
-        sel = [lp for lp in s.loops if lp.func == fi.qualname and lp.kind == "for" and isinstance(lp.iter, T) and lp.iter.op == "idx" and lp.iter.args[1] == "unspents"]
+        sel = [lp for lp in s.loops if lp.func == fi.qualname and lp.kind == "for" and is_unspents(lp.iter)]
         R.check("C16.5", "PROV", fi, label + ": one selection loop over the reported unspents", len(sel) == 1, "found %d loops over sender_txoutset['unspents']" % len(sel))
         if len(sel) != 1:
             continue
@@ -242,9 +242,18 @@ def run(ctx):
     c05.check_writer(ctx, "C16.9")
 
 
+def is_unspents(it):
+    """scan result ['unspents']; the scan descriptor (pk(..) / addr(..)) differs per kind of sender address, so the iterable may
+    be a choice between scan results."""
+    it = rules.unfz(it)
+    if isinstance(it, T) and it.op == "ite":
+        return is_unspents(it.args[1]) and is_unspents(it.args[2])
+    return isinstance(it, T) and it.op == "idx" and it.args[1] == "unspents"
+
+
 def _sel_proj(s, fi):
     """The UTXO selection loop and every list it builds by appending one value g(u) per selected output u: {var: g}."""
-    sel = [lp for lp in s.loops if lp.func == fi.qualname and lp.kind == "for" and isinstance(lp.iter, T) and lp.iter.op == "idx" and lp.iter.args[1] == "unspents"]
+    sel = [lp for lp in s.loops if lp.func == fi.qualname and lp.kind == "for" and is_unspents(lp.iter)]
     if len(sel) != 1:
         return None, {}
     lp = sel[0]
